@@ -285,7 +285,9 @@ def shards(tier, seed):
   skels = list(T.SKELETONS)
   for skel in skels:
     for op in T.ALL_OPS:
-      if quick and skel in ('mixed', 'flat') and op not in CORE_OPS:
+      if not T.op_fits(op, skel):
+        continue
+      if quick and skel in ('mixed', 'flat') and op not in CORE_OPS + ['rebind_multi_far']:
         continue
       out.append(dict(name=f'step:{skel}:{op}', fn='h_step', params=dict(skel=skel, op=op), args=_ARGS,
                       budget_s=b, per_path_s=15))
@@ -296,6 +298,8 @@ def shards(tier, seed):
   # notification-disabled scope (list re-indexing happens inside change notification)
   for skel in (['list', 'obj'] if quick else skels):
     for op in (['insert', 'delitem', 'setitem', 'rebind_insert', 'set_slice', 'pop'] if quick else T.ALL_OPS):
+      if not T.op_fits(op, skel):
+        continue
       out.append(dict(name=f'step_nonotify:{skel}:{op}', fn='h_step', params=dict(skel=skel, op=op, notify=False, kinds=[0, 1]),
                       args=_ARGS, budget_s=b, per_path_s=15))
   import random as _r
